@@ -31,4 +31,29 @@ def globMatch : Bytes → Bytes → Bool
 termination_by p k => (p.length + k.length, p.length)
 decreasing_by all_goals simp_wf <;> omega
 
+
+/-- what a compiled glob consists of, between the anchors: the three shapes of regular expression the
+translation emits -/
+inductive GTok where
+  | anyStar            -- `.*`  (with `(?s)`: any sequence of characters)
+  | anyOne             -- `.`   (with `(?s)`: exactly one character)
+  | lit (c : UInt8)    -- `QuoteMeta(c)`: exactly the character c
+deriving Repr, DecidableEq
+
+def gtok (c : UInt8) : GTok := if c == 42 then .anyStar else if c == 63 then .anyOne else .lit c
+
+def GTok.src : GTok → Bytes
+  | .anyStar => b!".*"
+  | .anyOne => b!"."
+  | .lit c => if isRegexMeta c then [92, c] else [c]
+
+/-- the assumed semantics of the three shapes, anchored at both ends (Go's `regexp` is trusted for exactly this) -/
+def tokMatch : List GTok → Bytes → Bool
+  | [], k => k.isEmpty
+  | .anyStar :: ts, k => tokMatch ts k || (match k with | [] => false | _ :: cs => tokMatch (.anyStar :: ts) cs)
+  | .anyOne :: ts, k => (match k with | [] => false | _ :: cs => tokMatch ts cs)
+  | .lit c :: ts, k => (match k with | [] => false | d :: cs => c == d && tokMatch ts cs)
+termination_by ts k => (ts.length + k.length, ts.length)
+decreasing_by all_goals simp_wf <;> omega
+
 end GoRedis
